@@ -209,6 +209,9 @@ void LVCalc(matrix *X,
   #endif
   loop = 0;
   while(1){
+    #ifdef LIBSCIENTIFIC_VERIF
+    if(verif_nipals_tick != NULL) verif_nipals_tick(2);
+    #endif
     #ifdef DEBUG
     printf("######### Step %u\n", (unsigned int)step);
     step++;
